@@ -1,8 +1,9 @@
 #!/bin/bash
-# tools/multi_seed.sh "<seeds>" "<ids>" [P]: run quick checks for several VERIF_SEED values; prints non-zero exits
-SEEDS=${1:-"2 3 4 5"}; IDS=${2:-"C01 C02 C03 C04 C05 C06 C07 C09 C10 C11 C12 C13 C14 C15 C16 C17 C18 C19 C20"}; P=${3:-5}
-cd /verif; mkdir -p build/logs
+# tools/multi_seed.sh "1 2 3" [P] : run every quick check on /repo with each VERIF_SEED (evidence/ is restored afterwards by a default-seed run)
+cd /verif
+SEEDS=${1:-"1 2 3"}; P=${2:-5}
+ids=$(python3 -c "import json;print(' '.join(c['property_id'] for c in json.load(open('MANIFEST.json'))['checks']))")
+mkdir -p build/logs
 for s in $SEEDS; do
-  echo $IDS | tr ' ' '\n' | VERIF_SEED=$s xargs -P $P -I{} sh -c "./check {} > build/logs/{}.seed$s.log 2>&1; rc=\$?; if [ \$rc -ne 0 ]; then echo seed=$s {} rc=\$rc \$(grep -c '^VIOLATION' build/logs/{}.seed$s.log) violations; grep '^VIOLATION' build/logs/{}.seed$s.log | head -3; fi"
-  echo "seed $s done"
+  echo $ids | tr ' ' '\n' | xargs -P $P -I{} sh -c "VERIF_SEED=$s ./check {} > build/logs/{}.seed$s.log 2>&1; echo seed=$s {} rc=\$? \$(tail -n 1 build/logs/{}.seed$s.log | cut -c1-110)"
 done
